@@ -5,7 +5,6 @@ V = '/verif'
 sys.path.insert(0, V + '/rules')
 props = [json.loads(l) for l in open(V + '/properties.jsonl')]
 NA = {
- 'C15': "the share equals an area computed by geo's boolean operations; correctness and robustness on near-degenerate inputs are numeric, and the only structural sliver (a clamp) cannot be anchored without a textual proxy",
  'C16': "lane packing (n mod 8 arithmetic) and the distance identities are value-level statements over all vector lengths and f32 values; nothing in the code shape decides them",
 }
 LEVEL_TEXT = {}
